@@ -184,34 +184,44 @@ theorem RouteInv.recv {s s' : St} {ob : Obs} (h : RouteInv s) (c : Nat) (dl : Op
     split at hs
     · cases hs
     · split at hs
-      · simp only [Option.some.injEq, Prod.mk.injEq] at hs
-        rw [← hs.1]
-        exact h.chan_update c ch { ch with taken := ch.taken + 1 } hc rfl (Or.inl rfl) (Tame.refl _) rfl
-          (fun _ hp => hp) (fun _ hp => hp) (List.prefix_refl _) h.posLe
+      · cases hs
       · split at hs
-        · simp only [Option.some.injEq, Prod.mk.injEq] at hs; rw [← hs.1]; exact h
+        · simp only [Option.some.injEq, Prod.mk.injEq] at hs
+          rw [← hs.1]
+          exact h.chan_update c ch { ch with taken := ch.taken + 1 } hc rfl (Or.inl rfl) (Tame.refl _) rfl
+            (fun _ hp => hp) (fun _ hp => hp) (List.prefix_refl _) h.posLe
         · split at hs
+          · simp only [Option.some.injEq, Prod.mk.injEq] at hs; rw [← hs.1]; exact h
           · split at hs
             · split at hs
               · split at hs
-                · simp only [Option.some.injEq, Prod.mk.injEq] at hs; rw [← hs.1]
-                  exact h.same rfl rfl rfl rfl rfl rfl
-                · simp only [Option.some.injEq, Prod.mk.injEq] at hs; rw [← hs.1]; exact h
-              · cases hs
+                · split at hs
+                  · simp only [Option.some.injEq, Prod.mk.injEq] at hs; rw [← hs.1]
+                    exact h.chan_update c ch { ch with timedOut := true } hc rfl (Or.inl rfl) (Tame.refl _) rfl
+                      (fun _ hp => hp) (fun _ hp => hp) (List.prefix_refl _) h.posLe
+                  · simp only [Option.some.injEq, Prod.mk.injEq] at hs; rw [← hs.1]; exact h
+                · cases hs
+              · simp only [Option.some.injEq, Prod.mk.injEq] at hs; rw [← hs.1]; exact h
             · simp only [Option.some.injEq, Prod.mk.injEq] at hs; rw [← hs.1]; exact h
-          · simp only [Option.some.injEq, Prod.mk.injEq] at hs; rw [← hs.1]; exact h
 
-theorem RouteInv.dropRx {s s' : St} {ob : Obs} (h : RouteInv s) (c : Nat)
-    (hs : step s (.dropRx c) = some (s', ob)) : RouteInv s' := by
+theorem RouteInv.finish {s s' : St} {ob : Obs} (h : RouteInv s) (c : Nat) (b : Bool)
+    (hs : step s (.finish c b) = some (s', ob)) : RouteInv s' := by
   simp only [step] at hs
   cases hc : s.chans[c]? with
   | none => rw [hc] at hs; cases hs
   | some ch =>
     rw [hc] at hs
-    simp only [Option.some.injEq, Prod.mk.injEq] at hs
-    rw [← hs.1]
-    exact h.chan_update c ch { ch with rxAlive := false } hc rfl (Or.inl rfl) (Tame.refl _) rfl
-      (fun _ hp => hp) (fun _ hp => hp) (List.prefix_refl _) h.posLe
+    simp only at hs
+    split at hs
+    · cases hs
+    · split at hs
+      · cases hs
+      · split at hs
+        · cases hs
+        · simp only [Option.some.injEq, Prod.mk.injEq] at hs
+          rw [← hs.1]
+          exact h.chan_update c ch { ch with rxAlive := false, finScrub := b } hc rfl (Or.inl rfl) (Tame.refl _) rfl
+            (fun _ hp => hp) (fun _ hp => hp) (List.prefix_refl _) h.posLe
 
 theorem RouteInv.drvScrub {s s' : St} {ob : Obs} (h : RouteInv s)
     (hs : step s .drvScrub = some (s', ob)) : RouteInv s' := by
@@ -519,12 +529,7 @@ theorem RouteInv.step {s s' : St} {ob : Obs} (h : RouteInv s) (e : Ev) (hs : Con
   | enqueue i t => exact h.enqueue i t hs
   | poll i => exact h.poll i hs
   | recv c d => exact h.recv c d hs
-  | scrub id =>
-    simp only [Conn.step] at hs
-    split at hs <;> (simp only [Option.some.injEq, Prod.mk.injEq] at hs; rw [← hs.1])
-    · exact h.same rfl rfl rfl rfl rfl rfl
-    · exact h
-  | dropRx c => exact h.dropRx c hs
+  | finish c b => exact h.finish c b hs
   | dropHandles =>
     simp only [Conn.step, Option.some.injEq, Prod.mk.injEq] at hs; rw [← hs.1]; exact h.same rfl rfl rfl rfl rfl rfl
   | drvScrub => exact h.drvScrub hs
